@@ -150,6 +150,10 @@ PROPERTIES["C01"] = dict(
              "all 2^32 masks with the regex/host-anchor/removeparam kind bits syntactically zero; fixed pattern 'ab/cd/ef'", [("m", "u32")], "c01_flags",
              asserts="first run emitted iff not right-anchored, last iff right-anchored, middle always; scheme token iff exactly one of FROM_HTTP/FROM_HTTPS",
              stubs=[PACK] + STD_REGEX_STUBS[:1], consts={"mask_clear": (1 << 18) | (1 << 21) | (1 << 24) | (1 << 28) | (1 << 15)}),
+        kern("C01.flags_host", "src/filters/network.rs", "h_network.rs", "c01_flags_host", [Q, T], 60, 900, 6, ["filters::network::NetworkFilter::get_tokens", "utils::tokenize_filter", "utils::tokenize"],
+             "all 2^32 masks except the removeparam bit (IS_REGEX, IS_HOSTNAME_REGEX, IS_COMPLETE_REGEX symbolic); fixed pattern 'ab/cd/ef', fixed hostname 'gh.ij'", [("m", "u32")], "c01_flags_host",
+             asserts="hostname tokens are offered iff the hostname has no wildcard; pattern tokens iff the pattern is not a complete regex; scheme token iff exactly one of FROM_HTTP/FROM_HTTPS",
+             stubs=[PACK] + STD_REGEX_STUBS[:1], consts={"mask_clear": 1 << 15}),
         kern("C01.dom", "src/filters/network.rs", "h_network.rs", "c01_dom", [Q, T], 40, 900, 6, ["filters::network_matchers::check_options", "filters::network::NetworkFilter::get_tokens"],
              "all masks (kind bits off); one included domain hash; request source hashes absent or 0..=2 symbolic; scheme/party flags symbolic",
              [("m", "u32"), ("d", "u64"), ("s", U64S(2)), ("ns", "usize"), ("has_src", "bool"), ("http", "bool"), ("https", "bool"), ("tp", "bool")], "c01_dom",
@@ -273,6 +277,9 @@ PROPERTIES["C05"] = dict(
              witnesses_optional=["W:fuse.second_member_decides"]),
         kern("C05.fuse_e2", "src/optimizer.rs", "h_optimizer.rs", "c05_fuse_e2", [Q, T], 70, 1200, 12, FUSE_FUNCS,
              "as C05.fuse, the second rule has an empty pattern", FUSE_LAYOUT(2, 3), "c05_fuse", asserts="as C05.fuse", stubs=STD_REGEX_STUBS, consts=dict(FUSE_CONSTS, force_e2=True)),
+        kern("C05.fuse_anyof", "src/optimizer.rs", "h_optimizer.rs", "c05_fuse_anyof", [Q, T], 100, 1200, 12, FUSE_FUNCS,
+             "as C05.fuse, the first rule is an already fused rule (AnyOf of two 1-byte alternatives): re-fusion after add_filter + optimize", FUSE_LAYOUT(2, 3), "c05_fuse", asserts="as C05.fuse",
+             stubs=STD_REGEX_STUBS, consts=dict(FUSE_CONSTS, force_e1=False, force_e2=False, anyof1=True)),
         kern("C05.select", "src/optimizer.rs", "h_optimizer.rs", "c05_select", [Q, T], 10, 600, 4, ["optimizer::SimplePatternGroup::select"],
              "all 2^32 masks x domain list / excluded list / tag present or absent", [("m", "u32"), ("has_d", "bool"), ("has_n", "bool"), ("has_tag", "bool")], "c05_select",
              asserts="select refuses domain-bearing, tagged, redirect, csp and host-anchored rules (a fused rule cannot represent their extra fields)"),
@@ -406,7 +413,7 @@ PROPERTIES["C18"] = dict(
         kern("C18.perm", "src/resources/mod.rs", "h_resources_mod.rs", "c18_perm", [Q, T], 2, 300, 4,
              ["resources::PermissionMask::is_injectable_by", "resources::PermissionMask::is_default", "resources::PermissionMask::from_bits"],
              "all 256 x 256 (required, granted) pairs", [("required", "u8"), ("granted", "u8")], "c18_perm",
-             asserts="is_injectable_by(required, granted) <=> every required bit is granted; is_default <=> no bit"),
+             asserts="is_injectable_by(required, granted) <=> every required bit is granted; is_default <=> no bit; `|` and `|=` are the bitwise union (per-host permission of an injection = union over the requesting rules)"),
         kern("C18.sep", "src/resources/resource_storage.rs", "h_resource_storage.rs", "c18_sep", [T], 670, 3000, 16, ["resources::resource_storage::index_next_unescaped_separator"],
              "3 printable ASCII bytes, symbolic length", [("b", B(3)), ("l", "usize")], "c18_sep", asserts="no panic; returned index in range, points at an unescaped ','; None only if every ',' is escaped", panic_free=True),
     ],
